@@ -36,7 +36,7 @@ NewSess(e) == [proto |-> e.proto, tOpen |-> e.t, closed |-> FALSE, closeT |-> Of
                sent |-> <<>>, nrcv |-> 0, sub |-> <<>>, del |-> <<>>,
                created |-> <<>>, flushed |-> {}, cbReg |-> <<>>, cbRun |-> <<>>, lastFlush |-> <<>>, phase |-> "idle",
                causes |-> {}, pollOut |-> 0, dataOut |-> 0, closeAsked |-> Off, buffered |-> <<>>, closeSeen |-> FALSE, lastPost |-> <<>>, cset |-> {}, grace |-> Off, closeCalled |-> FALSE, parked |-> 0, may |-> {}, v3lossy |-> FALSE, sloppy |-> FALSE, nested |-> FALSE, inDispatch |-> FALSE, probeT |-> Off, coincide |-> FALSE,
-               accAtClose |-> {}, retd |-> {}, noopDue |-> Off, hard |-> FALSE, closeReason |-> "", gracefulAsked |-> FALSE]
+               accAtClose |-> {}, retd |-> {}, noopDue |-> Off, phaseUnk |-> FALSE, hard |-> FALSE, closeReason |-> "", gracefulAsked |-> FALSE]
 
 \* ---------------------------------------------------------------- common per-event checks for sock.* events
 \* lifecycle clauses that apply to every event sampled from a socket
@@ -127,7 +127,7 @@ Step ==
             \* a session opens when it is constructed; with the handshake gate parked that is earlier than the connection event
             \* (if a heartbeat instant already passed unobserved in between, the heartbeat phase is unknown until the next heartbeat event)
             /\ S' = Put(SS, e.sid, LET n == NewSess(IF Has(Pre, e.sid) THEN [e EXCEPT !.t = Pre[e.sid]] ELSE e) IN
-                                   IF Has(Pre, e.sid) /\ Pre[e.sid] + cfg.pi <= t THEN [n EXCEPT !.pingDue = Off, !.deadline = Off] ELSE n)
+                                   IF Has(Pre, e.sid) /\ Pre[e.sid] + cfg.pi <= t THEN [n EXCEPT !.pingDue = Off, !.deadline = Off, !.phaseUnk = TRUE] ELSE n)
             /\ viol' = viol \o tv
                  \o (IF e.rs # "open" THEN <<V("C03", "handed_over_not_open", e.sid, e.rs)>> ELSE <<>>)
                  \o (IF Has(SS, e.sid) THEN <<V("C04", "session_id_reused", e.sid, "")>> ELSE <<>>)
@@ -136,11 +136,11 @@ Step ==
        [] e.e = "sock.packetCreate" /\ known ->
             LET p == e.p
                 ns == IF p.ty = "message" THEN [s EXCEPT !.created = Append(s.created, p.id), !.cset = s.cset \cup {p.id}]
-                      ELSE IF p.ty = "ping" /\ s.proto = 4 THEN [s EXCEPT !.pingDue = Off, !.deadline = t + cfg.pt, !.created = Append(s.created, 0)]
+                      ELSE IF p.ty = "ping" /\ s.proto = 4 THEN [s EXCEPT !.pingDue = Off, !.deadline = t + cfg.pt, !.created = Append(s.created, 0), !.phaseUnk = FALSE]
                       ELSE [s EXCEPT !.created = Append(s.created, 0)]
             IN /\ S' = Upd(ns)
                /\ viol' = viol \o tv \o SockCommon(e, s)
-                    \o (IF p.ty = "ping" /\ s.proto = 4 /\ ~PingLegal(s.pingDue, t)
+                    \o (IF p.ty = "ping" /\ s.proto = 4 /\ ~PingLegal(s.pingDue, t) /\ ~s.phaseUnk
                         THEN <<V("C07", "ping_at_wrong_time", e.sid, [due |-> s.pingDue, at |-> t])>> ELSE <<>>)
                     \o (IF p.ty = "message" /\ p.id # 0 /\ p.id \in s.cset
                         THEN <<V("C18", "packetCreate_twice", e.sid, p.id)>> ELSE <<>>)
@@ -298,7 +298,8 @@ Step ==
                       ELSE IF e.kind = "poll" THEN [s0 EXCEPT !.pollOut = e.rid,
                                                                 !.noopDue = IF ProbedCand(sid) /\ s0.tr = "polling" /\ ~s0.closed THEN t + 100000 ELSE Off]
                       ELSE IF e.kind = "post" THEN [s0 EXCEPT !.dataOut = e.rid] ELSE s0
-            IN /\ Rq' = Put(Rq, e.rid, [kind |-> e.kind, sid |-> sid, nresp |-> 0, aborted |-> FALSE, returned |-> FALSE, overlap |-> overlap,
+                partner == IF ~overlap THEN 0 ELSE IF e.kind = "poll" THEN s0.pollOut ELSE s0.dataOut
+            IN /\ Rq' = Put(Rq, e.rid, [kind |-> e.kind, sid |-> sid, nresp |-> 0, aborted |-> FALSE, returned |-> FALSE, overlap |-> overlap, partner |-> partner,
                                          toClosed |-> live /\ s0.closed, inCloseWindow |-> live /\ s0.parked > 0, msgs |-> IF live /\ e.kind = "post" THEN s0.lastPost ELSE <<>>, status |-> 0, t |-> t])
                /\ S' = IF live THEN Put(SS, sid, ns) ELSE SS
                /\ viol' = viol \o tv /\ UNCHANGED <<cfg, Cn>>
@@ -317,7 +318,7 @@ Step ==
             IN /\ S' = Upd(ns) /\ viol' = viol \o tv /\ UNCHANGED <<cfg, Rq, Cn>>
        [] e.e = "cli.resp" ->
             LET rq == IF Has(Rq, e.rid) THEN Rq[e.rid] ELSE [kind |-> e.kind, sid |-> "", nresp |-> 0, aborted |-> FALSE, returned |-> FALSE,
-                                                              overlap |-> FALSE, toClosed |-> FALSE, inCloseWindow |-> FALSE, msgs |-> <<>>, status |-> 0, t |-> t]
+                                                              overlap |-> FALSE, partner |-> 0, toClosed |-> FALSE, inCloseWindow |-> FALSE, msgs |-> <<>>, status |-> 0, t |-> t]
                 sid == rq.sid
                 live == sid # "" /\ Has(SS, sid)
                 s0 == IF live THEN SS[sid] ELSE s
@@ -329,7 +330,14 @@ Step ==
                /\ viol' = viol \o tv \o rc.v
                     \o (IF rq.nresp >= 1 THEN <<V("C11", "second_response_to_one_request", sid, e.rid)>> ELSE <<>>)
                     \o (IF e.nwh > 1 THEN <<V("C11", "second_response_to_one_request", sid, e.rid)>> ELSE <<>>)
-                    \o (IF rq.overlap /\ e.status # 400 THEN <<V("C11", "overlapping_request_not_refused", sid, [rid |-> e.rid, status |-> e.status])>> ELSE <<>>)
+                    \* of two overlapping requests one is refused: which of them reaches the transport first is the server's business
+                    \* (a request may be overtaken between the router and the transport), so the breach is that NEITHER is
+                    \o (IF e.status # 400 /\ \E x \in DOMAIN Rq : x # e.rid /\ (rq.partner = x \/ Rq[x].partner = e.rid) /\ Rq[x].kind = rq.kind
+                                                                /\ Rq[x].status \notin {0, 400}
+                                                                \* (a request issued while a goroutine of the session was held at a yield point
+                                                                \*  may simply have been overlapped by the harness with a request the server had done with)
+                                                                /\ ~rq.inCloseWindow /\ ~Rq[x].inCloseWindow
+                        THEN <<V("C11", "overlapping_request_not_refused", sid, [rid |-> e.rid, status |-> e.status])>> ELSE <<>>)
                     \o (IF rq.toClosed /\ ~(e.status = 400 /\ e.code = 1) THEN <<V("C04", "closed_session_still_reachable", sid, [rid |-> e.rid, status |-> e.status])>> ELSE <<>>)
                     \o (IF live /\ rq.kind = "post" /\ e.okAck /\ ~s0.closed /\ rq.msgs # <<>> /\ ~(SeqSet(rq.msgs) \subseteq SeqSet(s0.del))
                         THEN <<V("C11", "ok_before_all_packets_processed", sid, [rid |-> e.rid, missing |-> SeqSet(rq.msgs) \ SeqSet(s0.del), v3lossy |-> s0.v3lossy])>> ELSE <<>>)
